@@ -107,7 +107,24 @@ def containment(ctx):
         flag = cp.node.args.args[2].arg if len(cp.node.args.args) > 2 else 'raise_com_failed'
         asked = sides_with_fact(cpcfg, lambda a, tv: tv and isinstance(a, ast.Name) and a.id == flag)
         comfail = sides_with_fact(cpcfg, lambda a, tv: tv and isinstance(a, ast.Call) and dotted(a.func) == 'isinstance' and 'CommunicationFailedError' in src(a))
-        for node in [x for st in h.body for x in walk_local(st) if isinstance(x, ast.Raise)]:
+        # the firewall is total: what a handler for ANY exception does with the caught object works for any exception - attributes
+        # only SECoP errors have (report_error, silent, raising_methods, format ...) are read with a getattr default or where an
+        # isinstance test established the class; otherwise the handler itself raises AttributeError and the poll thread ends
+        for hd in t.handlers:
+            names = handler_type_names(hd)
+            if hd.name is None or (names is not None and not any(py_exc(n) in (Exception, BaseException) for n in names)):
+                continue
+            typed = sides_with_fact(cpcfg, lambda a, tv, hd=hd: tv and isinstance(a, ast.Call) and dotted(a.func) == 'isinstance' and a.args
+                                    and src(a.args[0]) == hd.name)
+            for x in [x for st in hd.body for x in walk_local(st)]:
+                if isinstance(x, ast.Attribute) and isinstance(x.value, ast.Name) and x.value.id == hd.name and not hasattr(Exception(), x.attr):
+                    ok = bool(cpcfg.node_of(x)) and set(cpcfg.node_of(x)) <= typed
+                    ctx.check(ok, f'{cp.qualname}:handler for any exception reads `{x.attr}` safely', x,
+                              'where isinstance established the class',
+                              f'`{src(x)}` in the handler for `{src(hd.type) if hd.type else "everything"}`: a plain Python exception has no attribute '
+                              f'`{x.attr}` - the first non-SECoP exception of a poll / read function raises AttributeError inside the handler, which escapes '
+                              'callPollFunc and ends the poll thread of every module it serves', cp)
+        for node in [x for hd in t.handlers for st in hd.body for x in walk_local(st) if isinstance(x, ast.Raise)]:
             # the re-raise lies only where the tests established both facts (one combined test or nested ones)
             ok = bool(cpcfg.ids(node)) and set(cpcfg.ids(node)) <= (asked & comfail)
             ctx.check(ok, f'{cp.qualname}:re-raise only for start-up communication failure', node,
@@ -133,8 +150,19 @@ def only_polled_parameters(ctx):
     ctx.analysed(pt)
     cfg = CFG(pt.node, m, pt.module)
     apps = [c for c in calls_in(pt.node) if call_attr(c) == 'append' and 'polled_parameters' in src(c.func)]
-    ctx.check(len(apps) == 1, f'{pt.qualname}:single registration of read functions', pt.node, 'one append to polled_parameters',
-              f'{len(apps)} appends to polled_parameters', pt)
+    exts = [c for c in calls_in(pt.node) if call_attr(c) == 'extend' and 'polled_parameters' in src(c.func)]
+    ctx.check(len(apps) + len(exts) == 1, f'{pt.qualname}:single registration of read functions', pt.node, 'one append to polled_parameters',
+              f'{len(apps) + len(exts)} appends to polled_parameters', pt)
+    for c in exts:
+        # `polled_parameters.extend(<item> for ... if rfunc.poll)`: the filter of the comprehension is the guard
+        a = c.args[0] if c.args else None
+        if isinstance(a, (ast.GeneratorExp, ast.ListComp)):
+            conds = [x for g in a.generators for x in g.ifs]
+            ok = any(any(isinstance(at, ast.Attribute) and at.attr == 'poll' and tv for at, tv in facts_on_side(x, True)) for x in conds)
+            ctx.check(ok, f'{pt.qualname}:registration guarded by the poll flag', c, 'only items with `rfunc.poll`',
+                      'read functions are registered for polling regardless of their poll flag: parameters marked as not polled are read by the poller', pt)
+        else:
+            ctx.undecided(f'{pt.qualname}:registration guarded by the poll flag', c, 'extend() with something else than a comprehension', pt)
     for c in apps:
         tests = [t for t in cfg.nodes if t.kind == 'test' and src(t.ast).endswith('.poll')]
         ok = False
@@ -463,6 +491,27 @@ def the_poll_loop_does_its_work(ctx):
         raise AnchorMissing('due tests (main interval / slow parameter) not found in the poll thread')
     wired = [c for c in calls_in(pt.node) if call_attr(c) == 'addCallback' and c.args and isinstance(c.args[0], ast.Constant) and c.args[0].value == 'pollinterval'
              and len(c.args) > 1 and 'update_interval' in src(c.args[1])]
+    # ... of the SAME module: the poll info handed over is the one of the module the callback is added to (a local that was
+    # bound in another loop holds the info of the last module of that loop)
+    for c in wired:
+        recv = c.func.value
+        info = c.args[1].value if isinstance(c.args[1], ast.Attribute) else None
+        key = f'{pt.qualname}:pollinterval of a module drives its own poll info'
+        if info is None or not isinstance(recv, ast.Name):
+            ctx.undecided(key, c, 'form of the wiring not recognised', pt)
+            continue
+        loop = next((a for a in ancestors(c) if isinstance(a, ast.For)), None)
+        if isinstance(info, ast.Attribute) and info.attr == 'pollInfo' and src(info.value) == recv.id:
+            ctx.ok(key, c, f'`{src(info)}` of the same module', pt)
+        elif isinstance(info, ast.Name):
+            defs = [(v, st) for v, st, how in ReachingDefs(cfg, pt.node).at(c, info.id)]
+            same = bool(defs) and loop is not None and all(any(a is loop for a in ancestors(st)) and
+                                                           (f'{recv.id}.pollInfo' in src(st) or (v is not None and f'{recv.id}.pollInfo' in src(v))) for v, st in defs)
+            ctx.check(same, key, c, f'`{info.id}` is bound to {recv.id}.pollInfo in the same loop iteration',
+                      f'`{src(c)}`: `{info.id}` is not bound in this loop - it still holds the poll info of the last module of the loop that created them: a run-time '
+                      'change of the poll interval of any other module never takes effect on it (and changes the last module\'s interval instead)', pt)
+        else:
+            ctx.undecided(key, c, 'form of the wiring not recognised', pt)
     ctx.check(bool(wired), f'{pt.qualname}:pollinterval is wired to the poll info', pt.node, "addCallback('pollinterval', pinfo.update_interval)",
               'a change of the pollinterval parameter never reaches PollInfo.interval: it has no effect until restart', pt)
     sf = m.method(roles.MODULE, 'setFastPoll', inherited=False)
